@@ -52,7 +52,7 @@ def main():
     scratch = tempfile.mkdtemp(prefix='mx_')
     ev = os.path.join(scratch, 'ev'); os.makedirs(ev)
     for name, path, checks, kind in patches():
-        if only and only not in name:
+        if only and not any(o in name for o in only.split(',')):
             continue
         repo = os.path.join(scratch, 'repo')
         shutil.rmtree(repo, ignore_errors=True)
